@@ -50,6 +50,24 @@ func vec(n int, x float32) []float32 {
 }
 func rep(n int) string { return strings.Repeat("k", n) }
 
+// atOnce runs n copies of a request at the same time; the class's outcome is the first copy's
+func atOnce(n int, f func() error) error {
+	errs := make([]error, n)
+	var wg sync.WaitGroup
+	start := make(chan struct{})
+	for i := 0; i < n; i++ {
+		wg.Add(1)
+		go func(i int) {
+			defer wg.Done()
+			<-start
+			errs[i] = f()
+		}(i)
+	}
+	close(start)
+	wg.Wait()
+	return errs[0]
+}
+
 func drainSearch(st pb.Search_SearchClient, err error) error {
 	if err != nil {
 		return err
@@ -173,6 +191,96 @@ func classes() []class {
 		{"getsize.ok", true, func(e *env, ctx context.Context) error {
 			_, err := dsm(e).GetDatasetSize(ctx, &pb.GetDatasetRequest{DatasetId: e.ds})
 			return err
+		}},
+		// ---------------- the same request twice at once ("in any order" includes "at the same time"): the second
+		// copy is accepted while the first is still in flight, both reach the log, and the second is applied to a
+		// state the first has already changed
+		{"delete.same.concurrent", false, func(e *env, ctx context.Context) error {
+			d, err := dsm(e).Create(ctx, &pb.Dataset{Dimension: 3, Space: pb.Space_Euclidean, PartitionCount: 2, ReplicationFactor: 1})
+			if err != nil {
+				return err
+			}
+			return atOnce(3, func() error {
+				c2, cancel := context.WithTimeout(context.Background(), 4*time.Second)
+				defer cancel()
+				_, err := dsm(e).Delete(c2, &pb.UUIDRequest{Id: d.GetId()})
+				return err
+			})
+		}},
+		{"insert.same.concurrent", false, func(e *env, ctx context.Context) error {
+			return atOnce(3, func() error {
+				c2, cancel := context.WithTimeout(context.Background(), 4*time.Second)
+				defer cancel()
+				_, err := dm(e).Insert(c2, &pb.InsertRequest{DatasetId: e.ds, Id: id16(77), Value: vec(3, 7), Metadata: map[string]string{"a": "b"}})
+				return err
+			})
+		}},
+		{"remove.same.concurrent", false, func(e *env, ctx context.Context) error {
+			if _, err := dm(e).Insert(ctx, &pb.InsertRequest{DatasetId: e.ds, Id: id16(78), Value: vec(3, 8)}); err != nil {
+				return err
+			}
+			return atOnce(3, func() error {
+				c2, cancel := context.WithTimeout(context.Background(), 4*time.Second)
+				defer cancel()
+				_, err := dm(e).Remove(c2, &pb.RemoveRequest{DatasetId: e.ds, Id: id16(78)})
+				return err
+			})
+		}},
+		{"update+remove.concurrent", false, func(e *env, ctx context.Context) error {
+			if _, err := dm(e).Insert(ctx, &pb.InsertRequest{DatasetId: e.ds, Id: id16(79), Value: vec(3, 9), Metadata: map[string]string{"a": "b"}}); err != nil {
+				return err
+			}
+			k := 0
+			var mu sync.Mutex
+			return atOnce(4, func() error {
+				mu.Lock()
+				k++
+				mine := k
+				mu.Unlock()
+				c2, cancel := context.WithTimeout(context.Background(), 4*time.Second)
+				defer cancel()
+				if mine%2 == 0 {
+					_, err := dm(e).Remove(c2, &pb.RemoveRequest{DatasetId: e.ds, Id: id16(79)})
+					return err
+				}
+				_, err := dm(e).Update(c2, &pb.UpdateRequest{DatasetId: e.ds, Id: id16(79), Value: vec(3, 4)})
+				return err
+			})
+		}},
+		// a cosine dataset holding vectors of one direction and different lengths: their distances are zero up to
+		// rounding, on either side of zero - whatever consumes the distances (priority queues) has to cope
+		{"cosine.parallel", true, func(e *env, ctx context.Context) error {
+			d, err := dsm(e).Create(ctx, &pb.Dataset{Dimension: 3, Space: pb.Space_Cosine, PartitionCount: 1, ReplicationFactor: 1})
+			if err != nil {
+				return err
+			}
+			base := []float32{0.3, -1.7, 2.9}
+			var last error
+			for k, c := range []float32{1, 3, 0.3, 7, 1.7, 11, 0.9, 13, 2.3, 5, 0.7, 19, 1.1, 0.11} {
+				v := []float32{base[0] * c, base[1] * c, base[2] * c}
+				for try := 0; try < 20; try++ {
+					c2, cancel := context.WithTimeout(context.Background(), 2*time.Second)
+					_, last = dm(e).Insert(c2, &pb.InsertRequest{DatasetId: d.GetId(), Id: id16(byte(100 + k)), Value: v})
+					cancel()
+					if last == nil || strings.Contains(last.Error(), "exists") {
+						last = nil
+						break
+					}
+					time.Sleep(200 * time.Millisecond)
+				}
+				if last != nil {
+					return last
+				}
+			}
+			for _, c := range []float32{1.3, 17, 0.03} {
+				c2, cancel := context.WithTimeout(context.Background(), 2*time.Second)
+				err := drainSearch(sr(e).Search(c2, &pb.SearchRequest{DatasetId: d.GetId(), Query: []float32{base[0] * c, base[1] * c, base[2] * c}, K: 5}))
+				cancel()
+				if err != nil {
+					return err
+				}
+			}
+			return nil
 		}},
 		{"delete.unknown", false, func(e *env, ctx context.Context) error {
 			_, err := dsm(e).Delete(ctx, &pb.UUIDRequest{Id: id16(9)})
